@@ -68,6 +68,10 @@ class Build:
         self.nonconvex = False
 
     def coef(self):
+        if self.rng.random() < 0.04:
+            # a genuine coefficient of size 1e-9 (2^-30, exact in binary): not round-off, the component occurs in the constraint
+            self.tiny = True
+            return float(self.rng.choice([1, -1, 3])) * 2.0 ** -30
         return float(self.rng.choice([-3, -2, -1, 1, 2, 3, 0.5, -1.5]))
 
     def aff(self, p_const=0.12, p_zero_cancel=0.05):
@@ -218,6 +222,16 @@ def run_case(b):
             v['gen'] = gen
     case = {'cons': ser, 'dummy': dummy, 'vars': cand, 'kinds': sorted(set(b.kinds)), 'nonconvex': b.nonconvex,
             'user_ids': [i for v in b.vars for i in v.scalar_variable_ids]}
+    rng = getattr(b, 'rng', None)
+    if rng is not None and len(b.cons) >= 2 and rng.random() < 0.3:
+        # the same constraint objects were compiled before, as part of another (shorter) list, i.e. at other row offsets: whatever
+        # a constraint or an atom remembers of that compilation must not show in this one
+        k = rng.randint(1, len(b.cons) - 1)
+        try:
+            cl.compile_constrained_system(b.cons[k:])
+            case['precompiled_from'] = k
+        except Exception:  # noqa: BLE001
+            pass
     try:
         A, bb, K, vmap, variables, svid2col = cl.compile_constrained_system(b.cons)
         out = clm.canon_system(A, bb, K, svid2col, vmap)
@@ -237,9 +251,14 @@ def model_line(case):
 def sample_sigmas(case, rng, k):
     ids = case['user_ids']
     out = []
+    tiny = '/1073741824' in common.canon_json(case['cons'])
     for _ in range(k):
         mode = rng.random()
-        if mode < 0.3:
+        if tiny and mode < 0.4:
+            # some coefficient is of size 2^-30: assignments at which its term is of size one (one component huge, the others small)
+            big = rng.choice(ids)
+            out.append({i: (float(rng.choice([-3, -1, 1, 2, 5])) * 2.0 ** 30 if i == big else float(rng.randint(-2, 2))) for i in ids})
+        elif mode < 0.3:
             out.append({i: 0.0 for i in ids})
         elif mode < 0.7:
             out.append({i: float(rng.randint(-2, 2)) for i in ids})
@@ -261,8 +280,42 @@ def weights_by_block(case, out):
     return res
 
 
-def ecos_feasible(out, fixed):
-    """feasibility of {t : A [fixed, t] + b in K} with ECOS.  True / False / None"""
+def model_guided_sigmas(mo, case, rng, k=6):
+    """failing-input search: assignments of the user components taken from points of the MODEL's system (found by ECOS with a zero
+    objective and with a few random linear objectives); random grids rarely hit the feasible set of a list of several constraints"""
+    try:
+        A = [[float(F(v)) for v in row] for row in mo['A']]
+        b = [float(F(v)) for v in mo['b']]
+        # blocks ECOS cannot take (power cones, LMIs) are left out of the search problem: the candidates are then only points of a
+        # relaxation, and the definition decides afterwards which of them satisfy everything
+        keepK, keep, i = [], [], 0
+        for t, l in mo['K']:
+            if t not in ('pow', 'P'):
+                keepK.append([t, l])
+                keep += list(range(i, i + l))
+            i += l
+        out_m = {'A': [A[r] for r in keep], 'b': [b[r] for r in keep], 'K': keepK, 'cols': mo['cols']}
+    except Exception:  # noqa: BLE001
+        return []
+    sig = []
+    for t in range(k):
+        obj = None if t == 0 else np.array([float(rng.choice([-1, 0, 0, 1])) for _ in out_m['cols']])
+        r = ecos_feasible(out_m, {}, obj=obj)
+        if isinstance(r, tuple) and r[0] is True:
+            x = r[1]
+            sig.append({cid: float(round(x[j], 6)) for j, cid in enumerate(out_m['cols']) if cid in case['user_ids']})
+    ids = case['user_ids']
+    out = []
+    for s_ in sig:
+        d = {i: 0.0 for i in ids}
+        d.update(s_)
+        out.append(d)
+    return out
+
+
+def ecos_feasible(out, fixed, obj=None):
+    """feasibility of {t : A [fixed, t] + b in K} with ECOS (optionally with a linear objective over the free columns).
+    True / False / None"""
     import scipy.sparse as sp
     import safe_ecos
     K = out['K']
@@ -293,7 +346,7 @@ def ecos_feasible(out, fixed):
     kw = {}
     if rows['0']:
         kw = {'A': sp.csc_matrix(Af[rows['0']].reshape(-1, len(free))), 'b': -b2[rows['0']]}
-    sol = safe_ecos.solve(np.zeros(len(free)), G, h, dims, verbose=False, **kw)
+    sol = safe_ecos.solve(np.zeros(len(free)) if obj is None else np.asarray(obj, dtype=float)[free], G, h, dims, verbose=False, **kw)
     if sol is None:
         return None
     flag = sol['info']['exitFlag']
@@ -306,7 +359,7 @@ def ecos_feasible(out, fixed):
     return None
 
 
-def oracle(case, out, rng, nsig=6):
+def oracle(case, out, rng, nsig=6, extra_sigmas=()):
     """returns (why, replay-detail, tags) or None"""
     if 'raises' in out:
         nonempty = any(not (c['cls'] == 'dual' and all(t == '0' for t, _ in c['K'])) for c in case['cons'])
@@ -360,7 +413,7 @@ def oracle(case, out, rng, nsig=6):
     epi_of = {}
     for c in case['cons']:
         pass
-    for sigma in sample_sigmas(case, rng, nsig):
+    for sigma in list(extra_sigmas) + sample_sigmas(case, rng, nsig):
         holds = clm.combine([clm.con_holds(c, sigma) for c in case['cons']])
         if holds is None:
             continue
@@ -464,7 +517,7 @@ def run(ctx):
         if not res and ctx.disagreements and ctx.disagreements[-1]['case'].get('cons') is c['cons'] and deep_left[0] > 0:
             # failing-input search on a case where model and implementation disagree: many more points
             deep_left[0] -= 1
-            res = oracle(c, io, rng, nsig=150)
+            res = oracle(c, io, rng, nsig=150, extra_sigmas=model_guided_sigmas(mo, c, rng) if 'raises' not in mo else ())
         if res:
             why, detail, tags = res
             rep = {'case': c, 'observed': io if 'raises' in io else {'K': io['K'], 'cols': io['cols']}, 'detail': detail}
